@@ -199,6 +199,54 @@ func genC13(env *core.Env, emit func(core.Case)) {
 			Sample: map[string]any{"stream": stream, "what": sig, "outcome": outcome, "encoded_len": len(b)}})
 		env.Count(stream + "/" + outcome)
 	}
+	// responses as compressing servers write them: owner names and names inside RDATA are label runs that
+	// end in a pointer, or nothing but a pointer - which may itself lead to a pointer
+	for i := 0; i < env.Pick(400, 5000); i++ {
+		idx++
+		d := &gen.DNSBuilder{}
+		nAns, nAuth := 1+r.IntN(4), r.IntN(3)
+		d.Header(uint16(r.IntN(65536)), 0x8180, 1, nAns, nAuth, 0)
+		qlabels := append(gen.RandLabels(r, 3), gen.RandLabel(r))
+		d.Question(r, gen.NamePlain, qlabels, 1, 1)
+		styles := []gen.NameStyle{gen.NamePtrOnly, gen.NamePtrOnly, gen.NameCompressed, gen.NamePlain}
+		for j := 0; j < nAns+nAuth; j++ {
+			typ := []int{5, 2, 12, 1, 28}[r.IntN(5)]
+			if j >= nAns {
+				typ = 2
+			}
+			rd := func() {
+				switch typ {
+				case 1:
+					d.B = append(d.B, gen.RandBytes(r, 4)...)
+				case 28:
+					d.B = append(d.B, gen.RandBytes(r, 16)...)
+				default:
+					d.Name(r, styles[r.IntN(len(styles))], append(gen.RandLabels(r, 2), gen.RandLabel(r)))
+				}
+			}
+			d.RR(r, styles[r.IntN(len(styles))], append(gen.RandLabels(r, 2), gen.RandLabel(r)), typ, 1, uint32(r.IntN(100000)), rd, 0)
+		}
+		dec := dnsDecodeText(d.B)
+		w := ""
+		if m, err := dns.DecodeMessage(d.B); err != nil {
+			// the independent decoder decides whether the message is well formed
+			var p dnsmessage.Parser
+			if _, e := p.Start(d.B); e == nil {
+				if _, e = p.AllQuestions(); e == nil {
+					if _, e = p.AllAnswers(); e == nil {
+						w = "a compressed response that golang.org/x/net/dns/dnsmessage parses does not decode: " + err.Error()
+					}
+				}
+			}
+		} else if w2, ok := dnsmessageAgrees(d.B, m); !ok && !strings.Contains(w2, "cannot parse") {
+			w = w2
+		}
+		ops := []core.Op{{Line: "dns-decode " + core.Hex(d.B), Kind: 'M', Want: dec, Note: "DecodeMessage of a compressed response"},
+			{Kind: 'X', Note: "names reached through pointers (and pointers to pointers) decode as an independent decoder reads them", Want: w}}
+		emit(core.Case{Name: fmt.Sprintf("foreign-compressed/%d", idx), Stream: "foreign-compressed", Ops: ops, Key: "foreign-compressed", Sig: fmt.Sprintf("foreign-compressed/%d/%d/%v", nAns, nAuth, w == ""),
+			Sample: map[string]any{"stream": "foreign-compressed", "answers": nAns, "len": len(d.B)}})
+		env.Count("foreign-compressed/" + connh0(dec))
+	}
 	// HTTPS / SVCB records as other encoders write them: SvcParamKeys in increasing order starting with
 	// key 0 (mandatory), keys this package has no field for (dohpath 7, private-use 65000), any target
 	for i := 0; i < env.Pick(300, 4000); i++ {
